@@ -66,6 +66,17 @@ UNIT = {
              "!ctx.spec_options().fit_macro_constants && kind_bits(r) == Some(64int) ==> (if kind_signed(r) { !(-2147483648 <= value <= 2147483647) } else { !(0 <= value <= 4294967295) })",
          ],
          "proof_start": "lemma_pow2i();"},
+        # Enum::codegen: the width the translation starts from: the SIZE clang reports for the enum (let-statement, R18)
+        {"kind": "fn", "file": "bindgen/codegen/mod.rs", "name": "enum_repr_size", "impl": r"^impl CodeGenerator for Enum$", "ret": "r",
+         "closure": {"enclosing": "codegen", "anchor": "let size = layout", "nth": 0, "stmt": "let",
+                     "signature": "fn enum_repr_size(layout: Option<Layout>, kind: IntKind, signed: bool) -> (r: usize)", "prefix": "{", "suffix": "; size }"},
+         "subst": [(r"re:layout\s*\.map\(\|l\|\s*([^)]+?)\)\s*\.or_else\(\|\|\s*([^;]+?\(\))\)\s*\.unwrap_or\((\w+)\)",
+                    r"(match layout { Some(l) => \1, None => match \2 { Some(s_) => s_, None => \3 } })", 1, "R7 Option::map / or_else / unwrap_or")],
+         "ensures": [
+             # C05: "their enum type keeps the underlying width": the byte size of the C enum, not its alignment (they differ for
+             # 64-bit enums on i686)
+             "layout.is_some() ==> r == layout.unwrap().size",
+         ]},
         # Enum::codegen: the Rust integer type an enum's representation is translated to (let-statement, R18)
         {"kind": "fn", "file": "bindgen/codegen/mod.rs", "name": "translated_enum_repr", "impl": r"^impl CodeGenerator for Enum$", "ret": "r",
          "closure": {"enclosing": "codegen", "anchor": "let translated = match (signed, size) {", "nth": 0, "stmt": "let",
